@@ -71,14 +71,27 @@ def c19_1(ctx, ss):
         # the two bindings: partial(print, file=output) under ret_output, print otherwise; the returned text is the buffer
         texts = sorted(flow.text(d.value) for d in binds if d.value is not None)
         okb = texts == ["partial(print, file=StringIO())", "print"]
-        rets = [r for r in pf.walk_no_nested(ff.node) if isinstance(r, ast.Return) and r.value is not None and not (isinstance(r.value, ast.Constant))]
-        okr = len(rets) == 1 and flow.text(rets[0].value) == "StringIO().getvalue()"
+        # returned alternatives (a conditional expression counts as two returns under its test)
+        alts_r = []
+
+        def split_r(conds, v, node):
+            if isinstance(v, ast.IfExp):
+                split_r(conds + [(txt(a_), p_) for a_, p_ in guards.canon_cond(v.test, True)], v.body, node)
+                split_r(conds + [(txt(a_), p_) for a_, p_ in guards.canon_cond(v.test, False)], v.orelse, node)
+            else:
+                alts_r.append((conds, v, node))
+        for r in [r for r in pf.walk_no_nested(ff.node) if isinstance(r, ast.Return) and r.value is not None]:
+            split_r([(txt(e), pol) for kind, e, pol in guards.path_conditions(ff.node, r) if kind == "if"], r.value, r)
+        rets = [(c_, v_, n_) for c_, v_, n_ in alts_r if not isinstance(v_, ast.Constant)]
+        okr = len(rets) == 1 and flow.text(rets[0][1]) == "StringIO().getvalue()" and ("ret_output", True) in rets[0][0]
         if okb and okr:
             # the buffer that is returned is the one the printer writes to
             pb = [d.value for d in binds if d.value is not None and txt(d.value).startswith("partial(")]
             buf = next((kw.value for kw in pb[0].keywords if kw.arg == "file"), None) if pb else None
-            okr = isinstance(buf, ast.Name) and isinstance(rets[0].value, ast.Call) and isinstance(rets[0].value.func, ast.Attribute) \
-                and isinstance(rets[0].value.func.value, ast.Name) and rets[0].value.func.value.id == buf.id
+            rv = rets[0][1]
+            okr = isinstance(buf, ast.Name) and isinstance(rv, ast.Call) and isinstance(rv.func, ast.Attribute) \
+                and isinstance(rv.func.value, ast.Name) and rv.func.value.id == buf.id
+        rets = [n_ for _, _, n_ in rets]
         (ctx.holds if okb and okr else ctx.violation)("C19.1", f"{A2G}:{q} :: sink", where(ff, ff.node),
                                                       f"{q}: printer is print or print-to-buffer; the buffer is what is returned" if okb and okr
                                                       else f"{q}: printer bindings {texts}, returns {[txt(r.value) for r in rets]}")
@@ -209,11 +222,14 @@ def c19_4(ctx, ss):
         bases = {b for b, _ in uses}
         par_defs = [d for d in lsflow.defs if len(bases) == 1 and d.name == next(iter(bases)) and d.kind == "assign"]
         ok_use = bool(uses) and len(bases) == 1 and all(sfx in ("_M", "_W") for b, sfx in uses) and {sfx for _, sfx in uses} == {"_M", "_W"} and len(par_defs) == 1 and txt(par_defs[0].value) == "self.particle.programmatic_name"
-        decl = []
-        for c in pf.calls_in(mi.node):
-            for kw in getattr(c, "keywords", []):
-                if kw.arg == "name" and isinstance(kw.value, ast.BinOp) and isinstance(kw.value.right, ast.Constant):
-                    decl.append((miflow.text(kw.value.left), kw.value.right.value))
+        # declared names: every `<expr> + "_M" / "_W"` interpolated into the emitted text (bare, i.e. not inside quotes built around it)
+        decl = set()
+        for js in [x for x in pf.walk_no_nested(mi.node) if isinstance(x, ast.JoinedStr)]:
+            for fv in [p_ for p_ in js.values if isinstance(p_, ast.FormattedValue)]:
+                e_ = miflow.expand(fv.value)
+                if isinstance(e_, ast.BinOp) and isinstance(e_.op, ast.Add) and isinstance(e_.right, ast.Constant) and e_.right.value in ("_M", "_W"):
+                    decl.add((txt(e_.left), e_.right.value))
+        decl = sorted(decl)
         ok_decl = sorted(decl) == sorted([("__elem__(cls.all_particles - set(all_states)).programmatic_name", "_M"), ("__elem__(cls.all_particles - set(all_states)).programmatic_name", "_W")])
         (ctx.holds if ok_use and ok_decl else ctx.violation)("C19.4", k + " :: mass-width", where(ls, ls.node),
                                                              f"{cls_}: <particle.programmatic_name>_M / _W declared for every non-final particle seen and used by every line shape" if ok_use and ok_decl
